@@ -106,7 +106,7 @@ def run(pid, tier, replay=None):
         sv_execs = V.split_executions(rows)
         execs_all += sv_execs
         head = 'SPECIFICATION TSpec\nCONSTANTS Nodes = {1, 2, 3} MaxSeq = 99 TraceFile = "@TRACE@"\n'
-        r = V.validate_trace(wd, rows, "SvTrace.tla", head, ["T_C19svs_upd"],
+        r = V.validate_trace(wd, rows, "SvTrace.tla", head, ["T_C19svs_upd", "T_C19svs_pubup"],
                              invariants=["I_C19svs_vec", "I_C19svs_send", "I_C19svs_pub", "I_C19svs_periodic", "I_C19svs_probe", "I_C19svs_settle", "I_C19svs_exact"],
                              label="svs", timeout=3000)
         if r["blocked"]:
